@@ -66,6 +66,22 @@ S = {
  "C18-4": ("LocalHistogramTimer::observe returns early on !record before setting observed", "two cooperating sites: stop_and_discard leaves observed=false, Drop then records"),
  "C20-3": ("prometheus::register maps Err(AlreadyReg) to Ok(())", "multi-step: the same metric registered twice through a default-registry macro"),
  "C20-4": ("opts! merges several const-label maps first-wins (entry().or_insert_with) instead of last-wins (extend)", "unusual input: two label maps sharing a key"),
+ "C01-3": ("GenericLocalCounter::flush folds the pending value in with get(); +=; set() instead of the atomic inc_by", "interleaving: another inc or flush between the get and the set is overwritten"),
+ "C01-4": ("GenericLocalCounterVec::remove_label_values flushes the cached local and keeps the cache entry", "multi-step: use labels, remove, use the same labels again, flush — increments go to the orphaned child"),
+ "C02-3": ("LocalHistogramCore::flush adds the batch sum with set(get() + sum) instead of the CAS loop", "interleaving: a second writer of the hot shard between get and set"),
+ "C02-4": ("proto merges cold into hot only when > 0 (integer guards harmless, `cold_shard_sum > 0.0` drops negative / NaN sums)", "unusual input: a negative running sum and two collections"),
+ "C03-3": ("proto: hot_shard.sum.inc_by(cold_shard_sum) only if cold_shard_sum > 0.0", "unusual input: negative observations and at least two collects"),
+ "C03-4": ("LocalHistogramCore::observe finds the bucket with partition_point(|f| *f <= v)", "unusual input: a value equal to a bucket bound observed through a local batch"),
+ "C05-3": ("hash_labels = hash_label_values(get_label_values(labels)): the cardinality check runs on the resolved vector", "unusual input: a label map with all declared names plus a superfluous key is accepted"),
+ "C05-4": ("local vectors' remove_label_values deletes the shared child first and returns early with `?`", "multi-step: tuple removed through another handle, then local remove (Err) leaves a stale cached child"),
+ "C10-3": ("delete_label_values / delete check contains_key under the read lock, then remove under a separate write lock and return Ok", "interleaving: two concurrent removes of the same child both succeed"),
+ "C10-4": ("hash_label_values skips empty values (and their separator)", "unusual input: an empty label value — slice form and map form key the same tuple differently"),
+ "C11-3": ("AtomicI64::set = load; fetch_add(val - current)", "interleaving: two concurrent sets mix into a value nobody wrote"),
+ "C11-4": ("AtomicF64::dec_by normalises -0.0 with `if get() == 0.0 { set(0.0) }`", "interleaving: an add landing between the get and the set is overwritten when the gauge returns to exactly 0"),
+ "C15-3": ("the id hasher skips empty const-label values", "unusual input: an empty const label value; {a:\"\",b:\"x\"} and {a:\"x\",b:\"\"} share an id"),
+ "C15-4": ("dim_hash over sorted const names followed by sorted variable names without the `$` marker", "unusual input: the boundary between const and variable labels shifts while the combined sequence stays"),
+ "C19-3": ("make_static_metric leaf label map takes the preceding label names from labels.iter().rev().skip(1)", "a declaration with three or more labels: names of labels 0 and 1 are swapped"),
+ "C19-4": ("AFLocalHistogram::observe returns early on NaN", "unusual input: a NaN sample through the auto-flush histogram form only"),
 }
 mpath = os.path.join(HERE, "seeded", "MATRIX.json")
 matrix = json.load(open(mpath)) if os.path.exists(mpath) else {}
